@@ -36,9 +36,30 @@ def gen_cases(chk, quick):
         edges = sc.random_dag(rng, n, 0.3)
         kinds = [rng.choice(['step', 'file', 'glob']) for _ in edges]
         whens = [rng.choice(['by_dependencies', 'by_dependencies', 'always', 'never']) for _ in range(n)]
-        behav = [{'sleep_ms': rng.choice([0, 40, 100]), 'rc': 1 if rng.random() < 0.15 else 0} for _ in range(n)]
+        behav = [{'sleep_ms': rng.choice([0, 40, 100]), 'rc': 1 if rng.random() < 0.15 else 0,
+                  'closefds': rng.choice([0, 0, 0, 0, 3, 1])} for _ in range(n)]
         cases.append(sc.mk_case(sc.mk_spec(n, edges, kinds, whens), rng.randint(1, max(1, n - 1)), behav, label='random'))
     cases += gen_unspawnable(chk, quick)
+    return cases
+
+
+def gen_closed_streams(chk, quick):
+    """CORPUS (runs first; seed C13-4): step commands that close or redirect their output streams BEFORE they are finished
+    (`exec prog > log 2>&1`): the slot must stay taken until the command has EXITED, not until it closed its pipes.
+    Judged by the start/end journal the commands write to a file.  Both streams closed (the seeded shape), only one of them,
+    output first then close then a long sleep; pools 1 and 2, also as a level of a DAG and with failing commands."""
+    cases = []
+    for pool in (1, 2):
+        for mode in (3, 1, 2):
+            k = 4
+            behav = [{'sleep_ms': 180, 'closefds': mode, 'out': 40 if i % 2 else 0, 'err': 30 if i == 0 else 0} for i in range(k)]
+            cases.append(sc.mk_case(sc.mk_spec(k, []), pool, behav, label=f'corpus/C13-4 streams closed early ({mode}) pool {pool}'))
+    # mixed: two of five close early; a failing one; behind a root
+    behav = [{'sleep_ms': 30}] + [{'sleep_ms': 150, 'closefds': 3 if i in (1, 3) else 0, 'rc': 1 if i == 3 else 0} for i in range(1, 5)] + [{}]
+    edges = [(i, 0, 'step') for i in range(1, 5)] + [(5, i, 'step') for i in range(1, 5)]
+    whens = ['by_dependencies'] * 5 + ['always']
+    cases.append(sc.mk_case(sc.mk_spec(6, edges, whens=whens), 1, behav, label='corpus/C13-4 level with early-closing commands'))
+    cases.append(sc.mk_case(sc.mk_spec(6, edges, whens=whens), 2, behav, label='corpus/C13-4 level with early-closing commands'))
     return cases
 
 
@@ -100,11 +121,15 @@ def run(chk):
     cases = gen_cases(chk, quick)
     chk.extra['rule'] = ('k independent sleeping steps for k=2..%d with pools 1..k+1; root + w parallel steps + sink (w=3..%d) with every pool 1..w, '
                          'edges realised as explicit step dependencies or output-file/dependency-file or output-file/glob pairs, a few failing steps; '
+                         'CLOSED-STREAMS corpus first (seed C13-4): 4 independent commands that close stdout+stderr / only stdout / only stderr before sleeping 180 ms, pools 1 and 2, '
+                         'and a DAG level with two early-closing commands (one failing); a third of the random DAG commands also close streams early; '
                          'CONTENTION stream (hook-free binary, 16 pipelines in parallel): 72 (quick) / 200 (thorough) runs of 12 independent steps sleeping 150 ms with pool 1, '
                          '12 / 40 runs of 6-8 independent steps with pool 2, 12 / 40 runs of root + level of 10 + sink with pools 1 and 2; '
                          'random DAGs on 3..%d steps with random pools and when-options; steps whose command cannot be SPAWNED (NUL byte in an exported line_items variable, exec EINVAL after the slot was reserved): one or two of them competing with a gate step, six steps waiting behind the gate, pools 1 and 2, and as a dependency of a by_dependencies and of an always step (repeated). Every case is run once on the hook-free binary (journal oracle) '
                          'and 3 (quick) / 6 (thorough) times on the hook build with different seeded schedule perturbations (journal oracle + trace validated against the model). '
                          'Non-trivial: >= 2 steps, an edge or pool < number of steps, at least one command executed.') % ((6, 4, 6) if quick else (8, 6, 8))
+    closed = gen_closed_streams(chk, quick)
+    sc.run_family(ctx, 'closed-streams/plain', closed, OWN, hook=False)
     sc.run_family(ctx, 'pool/plain', cases, OWN, hook=False)
     sc.run_family(ctx, 'contention/plain', gen_contention(chk, quick), OWN, hook=False, workers=16, timeout=30, shrink=False)
     if ctx.xvc_hook:
@@ -114,6 +139,7 @@ def run(chk):
                 c2 = dict(c)
                 c2['sched'] = f'{chk.seed * 7919 + 1000 * rep + k}:{chk.rng.choice([0, 300, 2000, 8000])}'
                 hooked.append(c2)
+        hooked = [dict(c, sched=f'{chk.seed}:300') for c in closed] + hooked
         sc.run_family(ctx, 'pool/hook', hooked, OWN, hook=True)
     return chk.finish()
 
